@@ -83,6 +83,8 @@ func suspiciousC06(req J, choice *model.DecisionMakerChoice) bool {
 	return false
 }
 
+const maxSuspicious = 150
+
 func screenOne(c J) (suspicious bool) {
 	defer func() {
 		if r := recover(); r != nil {
@@ -127,7 +129,9 @@ func runScreen(cases []J, ow *obsWriter) {
 		if s {
 			sus++
 		}
-		if s || i%every == 0 {
+		// at most maxSuspicious suspicious cases are handed on (a change that breaks the relation everywhere would
+		// otherwise hand every case to TLC); the count of all of them is printed
+		if (s && sus <= maxSuspicious) || (!s && i%every == 0) {
 			ow.emit(J{"id": c["id"], "suspicious": s})
 		}
 		if hung >= maxStuck {
